@@ -213,7 +213,8 @@ def Graph.mergeEdges (g : Graph κ) (eid1 eid2 : Int) (d : Bool) : Except Err (G
     g.modifyNode (edge2.nid (!d)) (fun n => n.removeEdgeId edge2.eid d)
   else do
     pyAssert (edge1.opics == edge2.opics)
-    -- merge upstream nodes
+    -- merge upstream nodes (never a terminal node into another node)
+    pyAssert (!(edge2.nid (!d) == g.nidTerminal.1 || edge2.nid (!d) == g.nidTerminal.2))
     let node1 ← g.getNode (edge1.nid (!d))
     let (node2, g) ← g.removeNode (edge2.nid (!d))
     pyAssert ((node1.eids d).length == 1)
@@ -235,25 +236,29 @@ def pairs2 {α : Type} : List α → List (α × α)
   | [] => []
   | x :: xs => xs.map (fun y => (x, y)) ++ pairs2 xs
 
-/-- the test of `_simplify_step` whether the edge pair is merged -/
-def Graph.canMerge (g : Graph κ) (d : Bool) (eid1 eid2 : Int) : Except Err Bool := do
+/-- the test of `_simplify_step` whether the edge pair is merged; returns the pair handed to `merge_edges`
+(with the roles swapped if the second upstream node is a terminal node) -/
+def Graph.canMerge (g : Graph κ) (d : Bool) (eid1 eid2 : Int) : Except Err (Option (Int × Int)) := do
   let edge1 ← g.getEdge eid1
   let edge2 ← g.getEdge eid2
-  if edge1.nid (!d) == edge2.nid (!d) then pure true
-  else if edge1.opics != edge2.opics then pure false
+  if edge1.nid (!d) == edge2.nid (!d) then pure (some (eid1, eid2))
+  else if edge1.opics != edge2.opics then pure none
   else do
     let node1 ← g.getNode (edge1.nid (!d))
     let node2 ← g.getNode (edge2.nid (!d))
-    if (node1.eids d).length != 1 then pure false
-    else if (node2.eids d).length != 1 then pure false
-    else if node1.qnum != node2.qnum then pure false
-    else pure true
+    if (node1.eids d).length != 1 then pure none
+    else if (node2.eids d).length != 1 then pure none
+    else if node1.qnum != node2.qnum then pure none
+    else if node2.nid == g.nidTerminal.1 || node2.nid == g.nidTerminal.2 then pure (some (eid2, eid1))
+    else pure (some (eid1, eid2))
 
 /-- first pair (in `combinations` order) that can be merged -/
 def Graph.findPair (g : Graph κ) (d : Bool) : List (Int × Int) → Except Err (Option (Int × Int))
   | [] => .ok none
   | (e1, e2) :: rest => do
-    if (← g.canMerge d e1 e2) then pure (some (e1, e2)) else Graph.findPair g d rest
+    match ← g.canMerge d e1 e2 with
+    | some p => pure (some p)
+    | none => Graph.findPair g d rest
 
 /-- `for nid in nids0:` search of `_simplify_step` -/
 def Graph.findPairLayer (g : Graph κ) (d : Bool) : List Int → Except Err (Option (Int × Int))
